@@ -8,6 +8,10 @@ CHECKS = {
          "Every supported operation on all 1-byte operand pairs is enumerated completely; 2/4/8/16-byte operands from a full boundary-grid cross product and boundary-biased random tapes. Each result (value, width, Err/unknown) of Bitvector::bin_op/un_op/cast/subpiece and BitvectorDomain is compared with a reference written from the P-Code manual. Exhaustive for 1 byte, sampled above: the right level because the property quantifies over a huge finite value space.",
          "Trusted: harness/src/refsem.rs as transcription of the P-Code reference; generator respects documented preconditions (equal widths, Bool ops on 0/1, shift amount operand <= 8 bytes).",
          "DESIGN.md §3 C01"),
+ "C10": ("differential testing: generated IR programs x initial states executed by an independent IR interpreter before/after normalize_optimize (proptest tapes, shrinking)",
+         "Generated multi-function programs containing the syntactic idioms the five optimizing passes match are run from 6 initial machine states each in the harness' own interpreter before and after normalize_optimize; event traces (reads, writes, calls, indirect jumps, returns, dead ends incl. all physical registers) must be equal; a failing case is attributed to the first pass after which traces differ. Exploration: random search with coverage labels and floors, no exhaustiveness.",
+         "Trusted: irinterp/refsem as IR semantics (total: x/0:=0); temporaries are block-local; all registers havocked after calls; entry SP 64-byte aligned. Open known finding: CFG has no edge for CallOther returns (excluded class, counted).",
+         "DESIGN.md §3 C10"),
 }
 
 NOT_APPLICABLE = {}
